@@ -142,6 +142,18 @@ pub mod t {
     #[kani::proof]
     #[kani::unwind(10)]
     pub fn query_select_adapt_u16() {
+        query_u16(false);
+    }
+
+    /// The same after the backend has been replaced through `SelectAdapt::map` (identity closure):
+    /// `map` rebuilds the structure field by field.
+    #[kani::proof]
+    #[kani::unwind(10)]
+    pub fn query_select_adapt_u16_after_map() {
+        query_u16(true);
+    }
+
+    fn query_u16(through_map: bool) {
         const L: usize = 3;
         const M: usize = 0;
         const S16: usize = 1;
@@ -174,6 +186,7 @@ pub mod t {
         let bv = unsafe { BitVec::from_raw_parts([w], 64) };
         let bv = unsafe { AddNumBits::from_raw_parts(bv, ones) };
         let sel = unsafe { SelectAdapt::verif_from_raw_parts(bv, inv, [0usize; INV * 2 + 1], L, S16, M) };
+        let sel = if through_map { unsafe { sel.map(|b| b) } } else { sel };
         let r: usize = kani::any();
         kani::assume(r <= 65);
         match sel.select(r) {
